@@ -433,8 +433,11 @@ def check_property(pid, tier, only_units=None):
                     known.append((r, f, is_known))
                 else:
                     violations.append((r, f))
+    for r in results:
+        if r['status'] == 'violation' and r['failed'] and all(any(kr is r and kf_ is f for (kr, kf_, _k) in known) for f in r['failed']):
+            r['status'] = 'known-finding'     # every undischarged obligation of this unit is listed in known_findings.txt
     undecided = [r for r in results if r['status'] == 'undecided']
-    write_evidence(pid, tier, results, violations, time.time() - t0)
+    write_evidence(pid, tier, results, violations, time.time() - t0, known)
     for r, f, k in known:
         print('KNOWN-FINDING: property=%s %s' % (pid, k['rest']))
     for r in results:
@@ -485,7 +488,7 @@ def count_obligations(r):
     return n, r.get('n_discharged', 0)
 
 
-def write_evidence(pid, tier, results, violations, wall):
+def write_evidence(pid, tier, results, violations, wall, known=None):
     os.makedirs(os.path.join(ROOT, 'evidence'), exist_ok=True)
     obligations = discharged = 0
     units_doc = []
@@ -532,6 +535,7 @@ def write_evidence(pid, tier, results, violations, wall):
         'property_id': pid, 'tier': tier, 'seed': int(os.environ.get('VERIF_SEED', '0') or 0), 'level': 'proof',
         'coverage': {
             'obligations': obligations, 'discharged': discharged,
+            'known_findings': [{'unit': r_['unit'], 'obligation': f_['name'], 'function': f_.get('function'), 'listed_as': k_['line'][:400]} for (r_, f_, k_) in (known or [])],
             'checker_cmd': ' ; '.join(cmds) if cmds else 'none',
             'trusted_base': trusted,
             'samples': samples,
